@@ -21,7 +21,7 @@ FAIL_PATTERNS = (
     "postcondition not satisfied", "precondition not satisfied", "assertion failed", "invariant not satisfied",
     "possible arithmetic underflow/overflow", "possible division by zero", "decreases not satisfied",
     "index out of bounds", "recommendation not met", "loop invariant", "possible bit shift underflow/overflow",
-    "could not prove termination", "unreachable",
+    "could not prove termination", "unreachable", "expression simplifies to false",
 )
 UNDECIDED_PATTERNS = ("rlimit", "Resource limit", "timed out", "not supported", "unsupported")
 
@@ -227,7 +227,15 @@ def _run_unit(scratch, u, obs, results, tier, jobs, log, extra_suffix=None, exte
         r.rewrites = rlog
         r.raw = ""
         if fatal:
-            r.reason = fatal
+            # `assert(..) by (compute_only)` evaluating to false is reported by the front end and stops the run: it is a
+            # definite refutation of the function it sits in (the rest of the unit stays undecided)
+            comp = [e for e in errs.get(o.vfn, []) if "expression simplifies to false" in e[0]]
+            if comp:
+                r.status = "refuted"
+                r.reason = "; ".join(h for h, _ in comp[:2])
+                r.raw = "\n\n".join(b for _, b in comp[:2])
+            else:
+                r.reason = fatal
             continue
         bd = breakdown.get(o.vfn)
         es = errs.get(o.vfn, [])
@@ -261,6 +269,25 @@ def _run_unit(scratch, u, obs, results, tier, jobs, log, extra_suffix=None, exte
         else:
             r.reason = "undecided: SMT query failed without a located error"
             r.raw = err[-2000:]
+    # Failures located in functions that are not obligations themselves (hand-written lemmas, spec helpers): the proofs
+    # of the unit's obligations may rest on them, so nothing "proved" in this unit can be reported as proved.
+    all_vfns = {x.vfn for x in obs}
+    from . import obligations as _O
+    try:
+        all_vfns |= {x.vfn for x in _O.load_all() if getattr(x, "unit", None) == uname}
+    except Exception:
+        pass
+    # functions re-verified here whose obligations belong to the unit owning an included file are not strays either
+    all_vfns |= {f.name.split("::")[-1] for f in u.fns if getattr(f, "covered_elsewhere", False)}
+    stray = {fn: es for fn, es in errs.items() if fn not in all_vfns}
+    if stray and not fatal:
+        why = "; ".join("%s: %s" % (fn, es[0][0]) for fn, es in sorted(stray.items()))[:600]
+        for o in obs:
+            r = results[o.id]
+            if r.status == "proved":
+                r.status = "undecided"
+                r.reason = "undecided: a helper of unit %s failed to verify, so this proof is not established (%s)" % (uname, why)
+                r.raw = "\n\n".join(b for es in stray.values() for _, b in es[:2])[:4000]
     # A refutation must reproduce when the function is verified on its own: Verus shares solver state between the
     # functions of a file, and a failure elsewhere in the unit was seen to make a sound but trigger-dependent proof of
     # an unrelated function fail. Not reproducing => undecided (exit 2), never an alarm.
